@@ -13,6 +13,15 @@ pub trait Distribution<T>: Sized {
     fn sample<R: Rng>(&self, rng: &mut R) -> (r: T)
         ensures (r, final(rng).st()) == self.draw(old(rng).st());
 }
+// `rng.sample(distr)` (rand::Rng::sample) == `distr.sample(rng)`
+pub trait RngSampleExt: Rng {
+    fn sample<T, D: Distribution<T>>(&mut self, distr: D) -> (r: T)
+        ensures (r, final(self).st()) == distr.draw(old(self).st());
+}
+impl<R: Rng> RngSampleExt for R {
+    #[verifier::external_body]
+    fn sample<T, D: Distribution<T>>(&mut self, distr: D) -> (r: T) { unimplemented!() }
+}
 pub trait SampleUniform: Sized {
     spec fn valid_range(lo: Self, hi: Self) -> bool;
     spec fn uniform_draw(lo: Self, hi: Self, st: int) -> (Self, int);
